@@ -110,22 +110,49 @@ def _fully_parses(value: str) -> bool:
     return e is not None and all(_fully_parses(s) for s in _strings_outside_literal(e))
 
 
+ATOM_RE = re.compile(r"^a(\d+)$")
+ATTR_NAMES = {"Literal": 0, "T": 1}
+
+
+def _crc(text: str, mod: int) -> int:
+    import zlib
+    return zlib.crc32(text.encode("utf-8", "backslashreplace")) % mod
+
+
+def _has_string(node: ast.AST) -> bool:
+    return any(isinstance(n, ast.Constant) and isinstance(n.value, str) for n in ast.walk(node))
+
+
 def enc_ann(node: ast.expr) -> str:
-    """annotation expression -> the model's AnnE encoding (sa3, b3, N, a3 ...)"""
+    """annotation expression -> the model's AnnE prefix code: a<k> name, L the name Literal, N None, s<e> string holding the
+    expression e, b<k> string that is no expression, A<n><v> attribute, S<v><slice>, T<a><b> 2-tuple, O<a><b> `a | b`;
+    any other string-free expression is an opaque atom."""
     if isinstance(node, ast.Constant) and node.value is None:
         return "N"
     if isinstance(node, ast.Constant) and isinstance(node.value, str):
         inner = _parse_str_expr(node.value)
         if inner is None:
-            return "b" + amarker(node.value)
+            return "b%d" % (int(amarker(node.value)) if amarker(node.value) != "?" else 800 + _crc(node.value, 100))
         return "s" + enc_ann(inner)
-    k = amarker(ast.unparse(node))
-    strs = list(_strings_outside_literal(node))
-    if not strs:
-        return "a" + k
-    if all(_fully_parses(s) for s in strs):
-        return "sa" + k
-    return "b" + k
+    if isinstance(node, ast.Name):
+        if node.id == "Literal":
+            return "L"
+        m = ATOM_RE.match(node.id)
+        return "a%d" % (int(m.group(1)) if m else 1000 + _crc(node.id, 9000))
+    if isinstance(node, ast.Attribute):
+        n = ATTR_NAMES.get(node.attr)
+        if n is None:
+            n = 2 + _crc(node.attr, 97)
+        return "A%d%s" % (n, enc_ann(node.value))
+    if isinstance(node, ast.Subscript):
+        return "S" + enc_ann(node.value) + enc_ann(node.slice)
+    if isinstance(node, ast.Tuple) and len(node.elts) == 2:
+        return "T" + enc_ann(node.elts[0]) + enc_ann(node.elts[1])
+    if isinstance(node, ast.BinOp) and isinstance(node.op, ast.BitOr):
+        return "O" + enc_ann(node.left) + enc_ann(node.right)
+    if _has_string(node):
+        return "?"          # a string inside a node the model has no constructor for: never generated
+    return "a%d" % (10000 + _crc(ast.dump(node), 90000))
 
 
 def enc_ann_text(text: str) -> str:
@@ -461,7 +488,9 @@ DEFAULT_TEMPLATES = ["{m}", "-{m}", "{n}.x", "{n}(1)", "g({m}, k=2)", "[{m}, 1]"
                      "{n}.y.z", "[]", "None", "True", "'s'", "1.5", "{n}[1:2]", "b'{n}'", "({m} + 1) * 2"]
 ANN_TEMPLATES = ["a{k}", "a{k}.T", "List[a{k}]", "Dict[str, a{k}]", "'a{k}'", "List['a{k}']", "\"List[a{k}]\"",
                  "Optional[\"a{k}\"]", "a{k} | None", "Callable[[int], a{k}]", "Literal['a{k}']", "Tuple[a{k}, ...]",
-                 "\"'a{k}'\"", "None", "typing.Optional[a{k}]", "\"a{k} !\"", "List[\"a{k} !\"]", "\"'a{k} !'\""]
+                 "\"'a{k}'\"", "None", "typing.Optional[a{k}]", "\"a{k} !\"", "List[\"a{k} !\"]", "\"'a{k} !'\"",
+                 "t.Literal['a{k}']", "te.Literal['a{k}', 'x']", "typing.Literal['a{k}']", "'t.Literal[\"a{k}\"]'",
+                 "Dict['a{k}', t.Literal['a{k}']]", "'a{k}' | None", "List['a{k}'].T", "'Literal'['a{k}']"]
 
 
 def random_signature(rng, lo: int, hi: int, exprs: bool) -> str:
@@ -807,10 +836,414 @@ def run_overloads(ctx: Ctx, ngroups: int) -> None:
     ctx.compare("overloads", reqs, impls, pay)
 
 
+# ------------------------------------------------------------------ unstring_annotation tie
+
+ATTR_TEXT = {0: "Literal", 1: "T"}
+
+
+def ann_trees(depth: int) -> List[Any]:
+    """all annotation trees of the model's grammar up to the given depth (tuples: ('atom',1) ...)"""
+    leaves: List[Any] = [("atom", 1), ("atom", 2), ("L",), ("N",), ("bad", 1)]
+    level = list(leaves)
+    allt = list(leaves)
+    for _ in range(depth):
+        nxt: List[Any] = []
+        for e in level:
+            nxt.append(("str", e))
+            nxt.append(("attr", e, 0))
+            nxt.append(("attr", e, 1))
+        for ctor in ("sub", "tup", "bor"):
+            for a in allt:
+                for b in allt:
+                    if a in level or b in level:
+                        nxt.append((ctor, a, b))
+        allt += nxt
+        level = nxt
+    return allt
+
+
+def ann_text(e: Any) -> str:
+    k = e[0]
+    if k == "atom":
+        return "a%d" % e[1]
+    if k == "L":
+        return "Literal"
+    if k == "N":
+        return "None"
+    if k == "bad":
+        return repr("a%d !" % e[1])
+    if k == "str":
+        return repr(ann_text(e[1]))
+    if k == "attr":
+        v = ann_text(e[1])
+        if e[1][0] in ("tup", "bor"):
+            v = "(" + v + ")"
+        return v + "." + ATTR_TEXT[e[2]]
+    if k == "sub":
+        v = ann_text(e[1])
+        if e[1][0] in ("tup", "bor"):
+            v = "(" + v + ")"
+        sl = ann_text(e[2])
+        if e[2][0] == "tup":
+            sl = sl[1:-1]
+        return v + "[" + sl + "]"
+    if k == "tup":
+        return "(" + ann_text(e[1]) + ", " + ann_text(e[2]) + ")"
+    if k == "bor":
+        a, b = ann_text(e[1]), ann_text(e[2])
+        if e[2][0] == "bor":
+            b = "(" + b + ")"
+        return a + " | " + b
+    raise ValueError(k)
+
+
+def ann_code(e: Any) -> str:
+    k = e[0]
+    return {"atom": lambda: "a%d" % e[1], "L": lambda: "L", "N": lambda: "N", "bad": lambda: "b%d" % e[1],
+            "str": lambda: "s" + ann_code(e[1]), "attr": lambda: "A%d%s" % (e[2], ann_code(e[1])),
+            "sub": lambda: "S" + ann_code(e[1]) + ann_code(e[2]), "tup": lambda: "T" + ann_code(e[1]) + ann_code(e[2]),
+            "bor": lambda: "O" + ann_code(e[1]) + ann_code(e[2])}[k]()
+
+
+def _quotes_outside_literal(node: ast.AST) -> bool:
+    """is a string constant left anywhere but inside the slice of a (x.)Literal[...] subscript?"""
+    if isinstance(node, ast.Subscript):
+        v = node.value
+        if (isinstance(v, ast.Name) and v.id == "Literal") or (isinstance(v, ast.Attribute) and v.attr == "Literal"):
+            return _quotes_outside_literal(v)
+    if isinstance(node, ast.Constant) and isinstance(node.value, str):
+        return True
+    return any(_quotes_outside_literal(ch) for ch in ast.iter_child_nodes(node))
+
+
+def run_unstring(ctx: Ctx, depth: int, nrandom: int) -> None:
+    """astutils.unstring_annotation on annotation trees <-> model AnnE.unstring; oracle: only quotes change, and either
+    a SyntaxError was reported and the node is untouched, or no forward-reference string is left"""
+    from pydoctor import astutils
+    system = build_system("x = 1\n")
+    mod = system.allobjects["m"]
+    trees = ann_trees(depth)
+    rng = ctx.rng
+
+    def rand_tree(d: int) -> Any:
+        if d == 0 or rng.random() < 0.25:
+            return rng.choice([("atom", 1), ("atom", 2), ("atom", 3), ("L",), ("N",), ("bad", 1)])
+        c = rng.choice(["str", "str", "attr", "sub", "sub", "tup", "bor"])
+        if c == "str":
+            return ("str", rand_tree(d - 1))
+        if c == "attr":
+            return ("attr", rand_tree(d - 1), rng.choice([0, 0, 1]))
+        return (c, rand_tree(d - 1), rand_tree(d - 1))
+    trees += [rand_tree(rng.randint(3, 5)) for _ in range(nrandom)]
+    reqs, impls, pay = [], [], []
+    for e in trees:
+        text = ann_text(e)
+        try:
+            node = ast.parse(text, mode="eval").body
+        except SyntaxError:
+            ctx.count("unstring:text-not-python")
+            continue
+        code = ann_code(e)
+        if enc_ann(node) != code:
+            ctx.count("unstring:text-reads-differently")
+            continue
+        with Reports() as rep:
+            try:
+                res = astutils.unstring_annotation(ast.parse(text, mode="eval").body, mod)
+                out = enc_ann(res) + (" SyntaxError" if any("syntax error in annotation" in d for _, d in rep.seen) else " clean")
+            except Exception as ex:  # anything else escaping is a crash
+                res = None
+                out = "Crash:" + type(ex).__name__
+        reqs.append("signature unstring " + code)
+        impls.append(out)
+        pay.append({"kind": "unstring", "text": text})
+        failed = out.endswith("SyntaxError")
+        ctx.case("unstring " + code, "s" in code and ("S" in code or "A" in code), None)
+        ctx.count("stream:unstring")
+        ctx.count("unstring:" + ("syntax-error" if failed else "unquoted" if "s" in code else "nothing-to-do"))
+        if "SL" in code or "SA0" in code or "SsL" in code:
+            ctx.count("unstring:has-Literal-subscript")
+        if res is None:
+            ctx.fail("unstring:crash", {"kind": "unstring", "text": text}, out)
+            continue
+        # direct oracle, from the property text ("string annotations shown unquoted", nothing else changes)
+        if _dump(_unquote_all(res)) != _dump(_unquote_all(node)):
+            ctx.fail("unstring:changes-expression", {"kind": "unstring", "text": text},
+                     f"{text!r} became {ast.unparse(res)!r}: more than quoting changed")
+        elif failed and ast.dump(res) != ast.dump(node):
+            ctx.fail("unstring:partial", {"kind": "unstring", "text": text}, f"{text!r}: a string is no expression but the annotation was altered")
+        elif not failed and _quotes_outside_literal(res):
+            ctx.fail("unstring:quotes-left", {"kind": "unstring", "text": text}, f"{text!r} became {ast.unparse(res)!r}: a forward reference is still quoted")
+        elif not failed and _dump(_unquote(node)) != _dump(res):
+            ctx.fail("unstring:literal-args", {"kind": "unstring", "text": text},
+                     f"{text!r} became {ast.unparse(res)!r}: the arguments of Literal[...] must stay as written, everything else unquoted")
+    ctx.compare("unstring", reqs, impls, pay)
+
+
+def _unquote_all(node: ast.expr) -> ast.expr:
+    """every string that holds an expression replaced by it, also inside Literal[...] (shape without quoting)"""
+    class T(ast.NodeTransformer):
+        def visit_Constant(self, n: ast.Constant) -> ast.AST:
+            if isinstance(n.value, str):
+                e = _parse_str_expr(n.value)
+                if e is not None:
+                    return self.visit(e)
+            return n
+    return T().visit(ast.parse(ast.unparse(node), mode="eval").body)
+
+
+# ------------------------------------------------------------------ decorator loop tie
+
+DECO_HEADER = ("import typing, functools, abc, builtins\nimport typing as t\nimport typing_extensions as te\n"
+               "from typing import overload\nfrom typing import overload as _ov\nfrom mylib import overload as notov\n")
+DECORATORS = ["property", "functools.cached_property", "abc.abstractproperty", "myProperty", "Property", "propertyx",
+              "classmethod", "staticmethod", "builtins.classmethod", "p.setter", "p.deleter", "a.b.setter", "setter",
+              "p.getter", "overload", "t.overload", "_ov", "typing.overload", "te.overload", "notov", "foo", "foo.bar",
+              "foo(1)", "p.setter()", "overload()", "foo[0]", "(lambda f: f)", "foo().bar", "x.property", "x.setter.y"]
+
+
+def deco_token(deco_src: str, module_src: str) -> str:
+    """the model's view of one decorator: dotted name (node2dottedname semantics written independently) + does it name
+    typing.overload by Python's import rules"""
+    node = ast.parse(deco_src, mode="eval").body
+    if isinstance(node, ast.Call):
+        node = node.func
+    parts: List[str] = []
+    while isinstance(node, ast.Attribute):
+        parts.insert(0, node.attr)
+        node = node.value
+    if not isinstance(node, ast.Name):
+        return "-"
+    parts.insert(0, node.id)
+    from ..core import enc
+    real = decorator_is_overload(module_src, False, ".".join(parts))
+    return ("o:" if real else "x:") + "/".join(enc(p) for p in parts)
+
+
+def run_decorators(ctx: Ctx, nrandom: int) -> None:
+    """which defs become functions / properties / nothing, under which name and kind, overload or not:
+    real _handleFunctionDef + format_function_def <-> model handleDef / shownName"""
+    from pydoctor import model
+    from ..core import enc
+    rng = ctx.rng
+    cases: List[Tuple[str, List[str]]] = []
+    for parent in "mcf":
+        cases.append((parent, []))
+        for d in DECORATORS:
+            cases.append((parent, [d]))
+    for d1 in DECORATORS:
+        for d2 in DECORATORS:
+            cases.append(("c", [d1, d2]))
+    for _ in range(nrandom):
+        cases.append((rng.choice("mccf"), [rng.choice(DECORATORS) for _ in range(rng.randint(2, 4))]))
+    reqs, impls, pay = [], [], []
+    batch = 150
+    for start in range(0, len(cases), batch):
+        chunk = cases[start:start + batch]
+        lines = [DECO_HEADER]
+        for i, (parent, decos) in enumerate(chunk):
+            if parent == "m":
+                lines += ["@" + d for d in decos] + ["def h%d(a, /, b=1): ..." % i]
+            elif parent == "c":
+                lines += ["class K%d:" % i] + ["    @" + d for d in decos] + ["    def h%d(self, a, /, b=1): ..." % i]
+            else:
+                lines += ["def outer%d():" % i] + ["    @" + d for d in decos] + ["    def h%d(a, /, b=1): ..." % i]
+        src = "\n".join(lines) + "\n"
+        system = build_system(src)
+        for i, (parent, decos) in enumerate(chunk):
+            scope = system.allobjects["m" if parent == "m" else ("m.K%d" % i if parent == "c" else "m.outer%d" % i)]
+            made = [(n, o) for n, o in scope.contents.items() if parent != "m" or n == "h%d" % i]
+            if not made:
+                out = "inner"
+            elif len(made) > 1:
+                out = "several:" + ",".join(n for n, _ in made)
+            else:
+                n, ob = made[0]
+                if isinstance(ob, model.Attribute):
+                    out = ("property " if ob.kind is model.DocumentableKind.PROPERTY else "attribute ") + enc(n)
+                elif isinstance(ob, model.Function):
+                    kind = {model.DocumentableKind.STATIC_METHOD: "static", model.DocumentableKind.CLASS_METHOD: "class"}.get(ob.kind, "plain")
+                    if ob.overloads:
+                        shown = shown_overloads_names(ob)
+                        sn = shown[0] if shown else "?"
+                    else:
+                        from pydoctor.templatewriter import pages
+                        from pydoctor.stanutils import flatten_text
+                        m = DEF_RE.match(flatten_text(pages.format_function_def(ob.name, ob.is_async, ob)))
+                        sn = m.group(2) if m else "?"
+                    out = "function %s %s %s shown=%s" % (enc(n), kind, "o" if ob.overloads else "d", enc(sn))
+                else:
+                    out = "other:" + type(ob).__name__
+            req = "signature decos %s %s %s" % (parent, enc("h%d" % i), " ".join(deco_token(d, src) for d in decos))
+            reqs.append(req.rstrip())
+            impls.append(out)
+            pay.append({"kind": "decorators", "parent": parent, "decorators": decos})
+            ctx.case("decos " + parent + " " + " ".join(decos), len(decos) >= 1 and parent == "c", None)
+            ctx.count("stream:decorators")
+            ctx.count("decorators:outcome:" + out.split(" ")[0])
+            # oracle (property text): a real @overload def shows its own signature (here: is recorded as an overload at all)
+            if parent != "f" and out.startswith("function") and any(deco_token(d, src).startswith("o:") for d in decos):
+                if out.split(" ")[3] != "o":
+                    ctx.fail("overload-not-shown", {"kind": "decorators", "parent": parent, "decorators": decos},
+                             f"decorators {decos} name typing.overload but the def is not recorded as an overload")
+    ctx.compare("decorators", reqs, impls, pay)
+
+
+def shown_overloads_names(func) -> List[str]:
+    from pydoctor.templatewriter import pages
+    from pydoctor.stanutils import flatten_text
+    from twisted.web.template import Tag
+    res = []
+    for item in pages.format_overloads(func):
+        if isinstance(item, Tag) and item.tagName == "div":
+            m = DEF_RE.match(flatten_text(item))
+            res.append(m.group(2) if m else "?")
+    return res
+
+
+# ------------------------------------------------------------------ format_signature fallbacks
+
+def run_fallback(ctx: Ctx) -> None:
+    """Function objects that do not come from source: no signature, or a signature whose rendering raises -> '(...)'"""
+    import inspect
+    from pydoctor import model
+    from pydoctor.templatewriter import pages
+    from pydoctor.stanutils import flatten_text
+    system = build_system("def f(a): ...\n")
+    mod = system.allobjects["m"]
+
+    class Raiser:
+        def __repr__(self) -> str:
+            raise RuntimeError("boom")
+    reqs, impls, pay = [], [], []
+    for how in ("none", "raises", "none-overload", "raises-overload", "invalid-xml"):
+        func = model.Function(system, "g", mod)
+        func.setup()
+        if how.startswith("none"):
+            func.signature = None
+        elif how == "invalid-xml":
+            class Bad:
+                def __repr__(self) -> str:
+                    return "<unclosed"
+            func.signature = inspect.Signature([inspect.Parameter("a", inspect.Parameter.POSITIONAL_OR_KEYWORD, default=Bad())])
+        else:
+            func.signature = inspect.Signature([inspect.Parameter("a", inspect.Parameter.POSITIONAL_OR_KEYWORD, default=Raiser())])
+        target: Any = func
+        if how.endswith("overload"):
+            target = model.FunctionOverload(primary=func, signature=func.signature, decorators=[])
+        try:
+            text = flatten_text(pages.format_signature(target))
+            out = " ".join(display_tokens(text))
+        except Exception as ex:
+            out = "Crash:" + type(ex).__name__
+        reqs.append("signature fsig " + ("none" if how.startswith("none") else "raises"))
+        impls.append(out)
+        pay.append({"kind": "fallback", "how": how})
+        ctx.case("fallback " + how, False, None)
+        ctx.count("stream:fallback")
+    ctx.compare("fallback", reqs, impls, pay)
+
+
+# ------------------------------------------------------------------ deterministic corpus (runs first)
+
+CORPUS = [
+    ("seeded-C14-1-aliased-overload",
+     "import typing as t\nfrom typing import overload as _overload, Union\n\n@_overload\ndef parse(s: str, /, *, strict: bool = True) -> str: ...\n"
+     "@_overload\ndef parse(s: bytes, /, encoding: str = 'utf-8', *rest: int, **kw: object) -> bytes: ...\ndef parse(s, *args, **kw):\n    'impl'\n\n"
+     "@t.overload\ndef control(a: int) -> int: ...\n@t.overload\ndef control(a: str, b: float = 0.5) -> str: ...\ndef control(a, b=None):\n    'impl'\n"
+     "class K:\n    from typing_extensions import overload as ov\n    @ov\n    def m(self, a: int) -> int: ...\n    @ov\n    def m(self, a: str, /) -> str: ...\n    def m(self, a): ...\n"),
+    ("seeded-C14-2-annotated-positional-only",
+     "def f(a: int, b: 'Optional[str]' = None, /, c: float = 0.5): ...\nclass K:\n    def m(self: 'K', x: \"List['K']\", /, *a: int, k: 'K' = None, **kw: 'K') -> 'K': ...\n"),
+    ("seeded-C14-r2-1-shared-string-annotation",
+     "def g1(x: Flags & \"Read | Write\"): ...\ndef g2(y: \"Read | Write\"): ...\ndef g3(x: Flags & \"Read | Write\", y: \"Read | Write\") -> \"Read | Write\": ...\n"
+     "def g4(y: \"Read | Write\", x: Flags & \"Read | Write\"): ...\ndef g5(z: \"A - B\", w: C - \"A - B\") -> C * \"A - B\": ...\ndef g6(q: \"A - B\"): ...\n"),
+    ("seeded-C14-r2-2-right-operand-same-level",
+     "def g(a=4 * (10 // 4), b=BASE + (JITTER - SKEW), c=A + (B + C), d=A * (B % C), e=A * (B / C), f: X | (Y | Z) = 1, h: X & (Y & Z) = 2, i=A ^ (B ^ C)): ...\n"
+     "def k(a=(A - B) + C, b=A - (B + C), c=A / (B * C), d=A // (B // C), e=2 ** (3 ** 2), f=(2 ** 3) ** 2, g=-(A + B), h=A << (B << C)): ...\n"),
+    ("seeded-C14-r2-3-literal-through-alias",
+     "import typing as t\nimport typing_extensions as te\ndef g(m: t.Literal[\"r\", \"w\"], n: te.Literal[\"x\"], o: 'te.Literal[\"y\"]', p: x.y.Literal[\"z\"]) -> t.Literal[\"q\"]: ...\n"
+     "def h(m: Literal[\"r\", \"w\"], n: typing.Literal[\"x\"], o: typing_extensions.Literal[\"y\"], p: List[\"r\"], q: t.List[\"w\"]) -> t.Optional[\"q\"]: ...\n"),
+]
+
+
+def check_module_by_oracle(ctx: Ctx, tag: str, src: str) -> int:
+    """every def of the module judged by the direct oracle only (free-form expressions, no model involved)"""
+    from pydoctor import model
+    tree = ast.parse(src)
+    system = build_system(src)
+    n = 0
+
+    def scope(body: List[ast.stmt], full: str, in_class: bool) -> None:
+        nonlocal n
+        groups: Dict[str, List[ast.AST]] = {}
+        for st in body:
+            if isinstance(st, (ast.FunctionDef, ast.AsyncFunctionDef)):
+                groups.setdefault(st.name, []).append(st)
+            elif isinstance(st, ast.ClassDef):
+                scope(st.body, full + "." + st.name, True)
+        for name, defs in groups.items():
+            ob = system.allobjects.get(full + "." + name)
+            payload = {"kind": "corpus", "id": tag, "source": src}
+            if not isinstance(ob, model.Function):
+                ctx.fail("function-missing", payload, f"{full}.{name} is not documented as a function")
+                continue
+            ovs = [d for d in defs if any(decorator_is_overload_in(tree, body if in_class else None, ast.unparse(dd)) for dd in d.decorator_list)]
+            n += 1
+            ctx.case("corpus " + tag + " " + name, True, None)
+            ctx.count("stream:corpus")
+            if ovs:
+                shown = shown_overloads(ob) if ob.overloads else []
+                if not ob.overloads:
+                    ctx.fail("overload-not-shown", payload, f"{len(ovs)} overloads of {name} written, none shown ({tag})")
+                elif len(shown) != len(ovs):
+                    ctx.fail("overload-count", payload, f"{len(ovs)} overloads of {name} written, {len(shown)} shown ({tag})")
+                else:
+                    for (t, _), d in zip(shown, ovs):
+                        v = oracle(d, t)
+                        if v:
+                            ctx.fail("overload:" + v[0], payload, f"{tag}: overload of {name} does not show its own signature: " + v[1])
+            else:
+                t, kw = shown_signature(ob, True)
+                v = oracle(defs[-1], t)
+                if v:
+                    ctx.fail(v[0], payload, f"{tag}: {name}: " + v[1])
+    scope(tree.body, "m", False)
+    return n
+
+
+def decorator_is_overload_in(tree: ast.Module, class_body: Optional[List[ast.stmt]], deco: str) -> bool:
+    src = ast.unparse(tree)
+    node = ast.parse(deco, mode="eval").body
+    if isinstance(node, ast.Call):
+        node = node.func
+    try:
+        dotted = ast.unparse(node)
+    except Exception:
+        return False
+    if not re.match(r"^[A-Za-z_][\w.]*$", dotted):
+        return False
+    if class_body is None:
+        return decorator_is_overload(src, False, dotted)
+    # class scope: bindings of the class body first, then the module's
+    env_src = "\n".join(ast.unparse(st) for st in tree.body if not isinstance(st, ast.ClassDef)) + "\nclass _K:\n" + \
+        "".join("    " + line + "\n" for st in class_body if isinstance(st, (ast.Import, ast.ImportFrom)) for line in ast.unparse(st).splitlines()) + "    pass\n"
+    return decorator_is_overload(env_src, True, dotted)
+
+
+def run_corpus(ctx: Ctx) -> None:
+    total = 0
+    for tag, src in CORPUS:
+        total += check_module_by_oracle(ctx, tag, src)
+    ctx.extra["corpus_defs"] = total
+
+
 # ------------------------------------------------------------------ run
 
 def run(ctx: Ctx) -> None:
     rng = ctx.rng
+    # 0. deterministic corpus: the shapes of every seeded change, independent of the seed, first
+    run_corpus(ctx)
+    run_fallback(ctx)
     nmax = 3 if ctx.quick else 4
     cases: List[Case] = []
     read_texts: List[str] = []
@@ -852,7 +1285,8 @@ def run(ctx: Ctx) -> None:
                     cases.append(c)
     # 3. string annotations and the -> None spellings
     anns = ["'a0'", "\"'a0'\"", "List['a0']", "'List[a0]'", "Literal['a0']", "'a0 !'", "\"'a0 !'\"", "List['a0 !']", "None", "'None'",
-            "typing.Literal['a0']", "Dict['a0', List['a0']]", "\"Optional['a0']\""]
+            "typing.Literal['a0']", "Dict['a0', List['a0']]", "\"Optional['a0']\"", "t.Literal['a0']", "te.Literal['a0', 'x']",
+            "'t.Literal[\"a0\"]'", "List[t.Literal['a0']]", "'Literal'['a0']"]
     for a in anns:
         for tmpl in ("p0: {a}", "p0: {a} = d0", "p0: {a}, /, p1", "*p0: {a}", "**p0: {a}", "*, p0: {a} = d0", "p0, p1: {a}"):
             for ret in ("", " -> " + a, " -> None", " -> 'None'", " -> \"'None'\""):
@@ -883,6 +1317,8 @@ def run(ctx: Ctx) -> None:
     run_cases(ctx, cases)
     run_read_stream(ctx, read_texts)
     run_overloads(ctx, 440 if ctx.quick else 4400)
+    run_unstring(ctx, 2, 1500 if ctx.quick else 40000)
+    run_decorators(ctx, 300 if ctx.quick else 6000)
 
 
 # ------------------------------------------------------------------ replay
